@@ -127,6 +127,9 @@ class Fn:
                 if t["target"] is not None:
                     edges.append((t["target"], "call"))
             for (tb, lab) in edges:
+                # `otherwise -> unreachable` of an exhaustive match is not a control-flow edge
+                if k == "switch" and self.blocks[tb]["term"]["k"] == "unreachable" and not self.blocks[tb]["stmts"]:
+                    continue
                 self.succ[i].append((tb, lab))
                 self.pred[tb].append((i, lab))
         # reachable (normal) blocks
